@@ -174,6 +174,8 @@ class Model:
             return "ok"
         if self.mention_conflict(rec):
             return "unspec"
+        if n is not None and any(m == n for m, role in mentions(rec)):
+            return "unspec"         # a record which mentions its own identifier
         if n is not None and n not in self.names():
             # the new identifier is mentioned somewhere in a role the record cannot play
             for x in self.recs:
@@ -189,6 +191,12 @@ class Model:
                 if e.pos[:5] == rec.pos[:5] and S.link_complement_pos(rec.pos[:5]) != rec.pos[:5]:
                     return "unspec"
                 return "merge"
+            # a parallel link (same segment ends, another overlap): whether it is a duplicate
+            # depends on the overlaps (a placeholder overlap matches any) — UNSPECIFIED
+            for r in self.recs:
+                if r.rt == "L" and (r.pos[:4] == rec.pos[:4] or
+                                    r.pos[:4] == S.link_complement_pos(rec.pos[:5])[:4]):
+                    return "unspec"
         if n is None:
             return "ok"
         prev = self.by_name(n)
@@ -208,7 +216,7 @@ class Model:
                 return v
             prev = self.by_name(ident(rec))
             sep = " "
-            prev.pos[1] = prev.pos[1] + sep + rec.pos[1]
+            prev.pos[1] = (prev.pos[1] + sep + rec.pos[1]) if prev.pos[1] else rec.pos[1]
             have = {t[0] for t in prev.tags}
             for t in rec.tags:
                 if t[0] not in have:
@@ -251,6 +259,10 @@ class Model:
                             continue
                         todo.append(x)
             elif r.rt == "G" and v == "gfa2" and n is not None:
+                for x in list(self.recs):
+                    # an ordered group cannot go on without one of its steps
+                    if x.rt == "O" and any(m == n for m, role in mentions(x)):
+                        todo.append(x)
                 for x in self.recs:
                     if x.rt == "U":
                         items = x.pos[1].split(" ")
